@@ -284,3 +284,80 @@ func PanicSite(r any) (string, string) {
 	}
 	return "outside-library", kind
 }
+
+// ---------------------------------------------------------------- simulated clock
+//
+// The library's time.Now / Since / Until / Sleep are redirected here by the
+// instrumenter (verifsim.ClockHook / SleepHook, wired by cmd/sim). The clock
+// of a run starts at an instant derived from the run's seed and stands still
+// while the run executes (so that code which stamps the current time gives the
+// same result in every pass of one run); it moves when the library sleeps and
+// when the workload makes it jump – forwards or backwards, between operations
+// or after the k-th clock read inside one (clock skew and jumps, the fault
+// kind of this seam).
+
+var (
+	clockBase  time.Time
+	clockOff   time.Duration
+	jumpAtRead int64
+	jumpBy     time.Duration
+	// ClockReads points at the instrumented library's read counter.
+	ClockReads *int64
+	// ClockJumps counts the jumps that happened while the library was reading the clock.
+	ClockJumps int
+)
+
+var clockEpoch = time.Date(2024, 1, 1, 0, 0, 0, 0, time.UTC)
+
+// ResetClock starts a run's clock.
+//
+//go:norace
+func ResetClock(seed uint64) {
+	clockBase = clockEpoch.Add(time.Duration(seed%(400*86400)) * time.Second)
+	clockOff, jumpAtRead, jumpBy, ClockJumps = 0, 0, 0, 0
+}
+
+// Now is the simulated clock.
+//
+//go:norace
+func Now() time.Time {
+	if jumpAtRead > 0 && ClockReads != nil && *ClockReads >= jumpAtRead {
+		clockOff += jumpBy
+		jumpAtRead = 0
+		ClockJumps++
+	}
+	return clockBase.Add(clockOff)
+}
+
+// Sleep lets simulated time pass.
+//
+//go:norace
+func Sleep(d time.Duration) {
+	if d > 0 {
+		clockOff += d
+	}
+}
+
+// JumpClock moves the clock by d (either direction) now.
+//
+//go:norace
+func JumpClock(d time.Duration) { clockOff += d }
+
+// ArmClockJump makes the clock jump by d once the library has read it afterReads more times.
+//
+//go:norace
+func ArmClockJump(afterReads int64, d time.Duration) {
+	if ClockReads != nil {
+		jumpAtRead, jumpBy = *ClockReads+afterReads, d
+	}
+}
+
+// ClockReadCount is how often the library has read the clock so far.
+//
+//go:norace
+func ClockReadCount() int64 {
+	if ClockReads == nil {
+		return 0
+	}
+	return *ClockReads
+}
